@@ -33,9 +33,9 @@ Proof.
 Qed.
 
 (* object.Identical is equality on the modelled values *)
-Lemma cval_eqb_eq : forall a b, cval_eqb a b = true -> a = b.
+Lemma cval_eqb_eq : forall a b, cval_eqb true a b = true -> a = b.
 Proof.
-  fix IH 1. intros x y. destruct x as [n| |s|b|l|l|cn cw|cn], y as [n'| |s'|b'|l'|l'|cn' cw'|cn']; cbn [cval_eqb]; try discriminate.
+  fix IH 1. intros x y. destruct x as [n| |s|b|l|l|ct ci cn cw|ct ci cn], y as [n'| |s'|b'|l'|l'|ct' ci' cn' cw'|ct' ci' cn']; cbn [cval_eqb]; try discriminate.
   - intros H. f_equal. apply num_eqb_eq; auto.
   - reflexivity.
   - intros H. f_equal. apply name_eqb_eq; auto.
@@ -45,8 +45,10 @@ Proof.
   - revert l'. induction l as [|[k x] l IHl]; intros [|[k' y] r] H; try discriminate; try reflexivity.
     apply andb_true_iff in H as [H1 H2]. apply andb_true_iff in H1 as [H0 H1].
     apply key_eqb_eq in H0. apply IH in H1. apply IHl in H2. inversion H2. subst. reflexivity.
-  - intros H. apply andb_true_iff in H as [H1 H2]. apply name_eqb_eq in H1. apply IH in H2. subst. reflexivity.
-  - intros H. apply name_eqb_eq in H. subst. reflexivity.
+  - simpl. intros H. apply andb_true_iff in H as [H0 H]. apply andb_true_iff in H as [H H2]. apply andb_true_iff in H as [H3 H1].
+    apply Nat.eqb_eq in H0. apply Nat.eqb_eq in H3. apply name_eqb_eq in H1. apply IH in H2. subst. reflexivity.
+  - simpl. intros H. apply andb_true_iff in H as [H0 H]. apply andb_true_iff in H as [H3 H1].
+    apply Nat.eqb_eq in H0. apply Nat.eqb_eq in H3. apply name_eqb_eq in H1. subst. reflexivity.
 Qed.
 
 (* ------------------------------------------------------------------ association lists and frames *)
@@ -106,6 +108,7 @@ Section INV.
   Hypothesis Hct : const_test c = true.
   Hypothesis Hcow : ccow c = true.
   Hypothesis Hstrict : strict_eq c = true.
+  Hypothesis Hfn : fn_env c = true.
 
   Definition klook (f : frame) : option obj := nlookup (fstore f) K.
 
@@ -341,7 +344,7 @@ Section INV.
       + destruct HG as (HI1 & HL1 & Hnm & HK & _).
         destruct o as [old|up m]; simpl.
         * destruct (same_value c old w) eqn:EQ; simpl.
-          -- unfold same_value in EQ. rewrite Hstrict in EQ. apply cval_eqb_eq in EQ. subst w.
+          -- unfold same_value in EQ. rewrite Hstrict, Hfn in EQ. apply cval_eqb_eq in EQ. subst w.
              assert (Hold : n = K -> old = v).
              { intros E. specialize (HK E). destruct e1; [exfalso; eapply Inv_nonempty; eauto|]. simpl in HK. apply HK. }
              destruct (set_no_checks_inv e1 n old create HI1 Hold) as [H1 H2].
@@ -463,6 +466,7 @@ Section INV.
       destruct r1; try (destruct e1; simpl in *; auto; fail).
       destruct e1 as [|f t]; simpl in *; auto.
       destruct (nlookup (fstore f) n) as [[w|up m]|]; simpl; auto.
+    - simpl. auto.
     - simpl. destruct (read_name_inv e g HI) as (H1 & L1 & _).
       destruct (read_name e g) as [e1 [[| | | | | | |]| | |]]; simpl in *; auto.
   Qed.
@@ -491,7 +495,7 @@ Section INV.
       destruct (read_name_inv e n HI) as (H1 & L1 & _).
       destruct (read_name e n) as [e1 r1]. simpl in *.
       destruct r1 as [old| | |]; auto.
-      destruct old as [[z|q|]| |s0|b0|l0|l0|cn cw|cn]; simpl; auto;
+      destruct old as [[z|q|]| |s0|b0|l0|l0|ct ci cn cw|ct ci cn]; simpl; auto;
       try (destruct (int64_ok (z + delta)); simpl; auto);
       match goal with |- context [create_or_set c e1 n ?w false] =>
         destruct (create_or_set_inv e1 n w false H1) as (H2 & L2 & _);
@@ -660,39 +664,39 @@ Proof.
 Qed.
 
 (* the binding itself: registers on or off, with or without the constant test on the register paths *)
-Lemma constant_stable : forall c, ccow c = true -> strict_eq c = true ->
+Lemma constant_stable : forall c, ccow c = true -> strict_eq c = true -> fn_env c = true ->
   forall (K : name) (v : cval) (evs : list event) (e : env),
   constant_name K = true -> root_wf e -> root_value e K = Some v ->
   forallb (fun ev => negb (event_deletes_name K ev)) evs = true ->
   root_value (run_events c e evs) K = Some v.
 Proof.
-  intros c Hcow Hst K v evs e HK (s & -> & Hs) Hv Hd.
-  destruct (run_events_inv K v HK c Hcow Hst evs _ Hd (root_inv K v s Hs Hv)) as (H1 & L1).
+  intros c Hcow Hst Hfn K v evs e HK (s & -> & Hs) Hv Hd.
+  destruct (run_events_inv K v HK c Hcow Hst Hfn evs _ Hd (root_inv K v s Hs Hv)) as (H1 & L1).
   apply Inv_root; auto.
 Qed.
 
 (* reading the name, at top level or from a nested function or loop *)
-Lemma constant_read_stable : forall c, ccow c = true -> strict_eq c = true ->
+Lemma constant_read_stable : forall c, ccow c = true -> strict_eq c = true -> fn_env c = true ->
   forall (K : name) (v : cval) (evs : list event) (e : env) (s : scope),
   constant_name K = true -> root_wf e -> root_value e K = Some v ->
   forallb (fun ev => negb (event_deletes_name K ev)) evs = true ->
   snd (run_event c (run_events c e evs) (Ev s (ARead K))) = Ok v.
 Proof.
-  intros c Hcow Hst K v evs e sc HK (s & -> & Hs) Hv Hd.
-  destruct (run_events_inv K v HK c Hcow Hst evs _ Hd (root_inv K v s Hs Hv)) as (H1 & L1).
+  intros c Hcow Hst Hfn K v evs e sc HK (s & -> & Hs) Hv Hd.
+  destruct (run_events_inv K v HK c Hcow Hst Hfn evs _ Hd (root_inv K v s Hs Hv)) as (H1 & L1).
   apply read_event_value; auto.
 Qed.
 
 (* using the name as a parameter or as a loop variable never makes it evaluate to something else: the attempt
    fails, or what the body reads is the constant's value (nil: a loop that did not iterate) *)
-Lemma constant_not_shadowed : forall c, const_test c = true -> ccow c = true -> strict_eq c = true ->
+Lemma constant_not_shadowed : forall c, const_test c = true -> ccow c = true -> strict_eq c = true -> fn_env c = true ->
   forall (K : name) (v : cval) (evs : list event) (e : env) (s : scope) (a : attempt),
   constant_name K = true -> root_wf e -> root_value e K = Some v ->
   forallb (fun ev => negb (event_deletes_name K ev)) evs = true ->
   shadowing K a ->
   let r := snd (run_event c (run_events c e evs) (Ev s a)) in r = Err \/ r = Ok v \/ r = Ok XNil.
 Proof.
-  intros c Hct Hcow Hst K v evs e sc a HK (s & -> & Hs) Hv Hd Ha.
-  destruct (run_events_inv K v HK c Hcow Hst evs _ Hd (root_inv K v s Hs Hv)) as (H1 & L1).
-  apply (shadow_event_value K v HK c Hct Hcow Hst _ sc a H1 L1 Ha).
+  intros c Hct Hcow Hst Hfn K v evs e sc a HK (s & -> & Hs) Hv Hd Ha.
+  destruct (run_events_inv K v HK c Hcow Hst Hfn evs _ Hd (root_inv K v s Hs Hv)) as (H1 & L1).
+  apply (shadow_event_value K v HK c Hct Hcow Hst Hfn _ sc a H1 L1 Ha).
 Qed.
